@@ -101,8 +101,8 @@ impl Prop for C16 {
     }
     fn runs(&self, tier: Tier) -> u64 {
         match tier {
-            Tier::Quick => 14_000,
-            Tier::Thorough => 500_000,
+            Tier::Quick => 250_000,
+            Tier::Thorough => 5_000_000,
             Tier::Tiny => 50,
         }
     }
